@@ -465,6 +465,9 @@ func (vc *FuncVC) exec(in ssa.Instruction) {
 	case *ssa.Store:
 		vc.checkNonNil(x.Addr, "store")
 		vc.cur = vc.store(vc.cur, x.Addr, vc.term(x.Val))
+		if vc.localSuffix(x.Addr) == "" {
+			vc.publish(vc.term(x.Val), x.Val.Type())
+		}
 	case *ssa.Convert:
 		vc.execConvert(x)
 	case *ssa.ChangeType:
@@ -495,6 +498,9 @@ func (vc *FuncVC) exec(in ssa.Instruction) {
 		t := vc.fresh("clo", SInt)
 		vc.assume(Cmp("<", IntLit(0), t))
 		vc.vals[x] = &Val{T: t, Typ: x.Type(), Clo: x}
+		for _, b := range x.Bindings {
+			vc.publish(vc.term(b), b.Type())
+		}
 		vc.logClosure(x, t)
 	case *ssa.MakeChan:
 		t := vc.fresh("chan", SInt)
@@ -564,7 +570,8 @@ func (vc *FuncVC) backEdges() {
 		env.loop = li
 		env.phiEdge = predIdx
 		for _, inv := range invs {
-			vc.oblige("inv.preserve", fmt.Sprintf("inv.loop%d.%s.preserve", li.ordinal, inv.name), vc.edgeCond[b][i], inv.goal(env), inv.src)
+			g, h := inv.goalHyp(vc, env)
+			vc.obligeWith("inv.preserve", fmt.Sprintf("inv.loop%d.%s.preserve", li.ordinal, inv.name), vc.edgeCond[b][i], g, h, inv.src)
 		}
 	}
 }
@@ -577,6 +584,7 @@ func (vc *FuncVC) execAlloc(x *ssa.Alloc) {
 	vc.assume(Not(Select(a, r, SBool)))
 	vc.assume(Eq(vc.baseOf(r), r))
 	vc.cur = vc.cur.set("alloc", Store(a, r, tTrue))
+	vc.cur = vc.cur.set("escaped", Store(vc.cur.get("escaped"), r, tFalse))
 	vc.vals[x] = &Val{T: r, Typ: x.Type()}
 	vc.nonNil[x] = true
 	suffix := ""
@@ -694,6 +702,19 @@ func (vc *FuncVC) execUnOp(x *ssa.UnOp) {
 		vc.assume(vc.typeInv(r, x.Type()))
 		if vc.val(x.X).Loc == nil || !strings.Contains(vc.val(x.X).Loc.Comp, "#L") {
 			vc.assumeAllocated(r, x.Type())
+			// memory that has not been written since entry holds references that existed at entry
+			unchanged := true
+			for _, c := range vc.storeComps(x.X) {
+				if vc.cur.get(c).S != vc.entryState.get(c).S {
+					unchanged = false
+				}
+			}
+			if unchanged {
+				saved := vc.cur
+				vc.cur = vc.entryState
+				vc.assumeAllocated(r, x.Type())
+				vc.cur = saved
+			}
 		}
 	case token.NOT:
 		vc.defineVal(x, &Val{T: Not(vc.term(x.X))})
@@ -944,7 +965,37 @@ func (vc *FuncVC) freshRef(prefix string) Term {
 	vc.assume(Not(Select(a, r, SBool)))
 	vc.assume(Eq(vc.baseOf(r), r))
 	vc.cur = vc.cur.set("alloc", Store(a, r, tTrue))
+	vc.cur = vc.cur.set("escaped", Store(vc.cur.get("escaped"), r, tFalse))
 	return r
+}
+
+// publish marks the object a reference value points to as known to other code.
+func (vc *FuncVC) publish(t Term, typ types.Type) {
+	var ref Term
+	switch u := typ.Underlying().(type) {
+	case *types.Pointer, *types.Map, *types.Chan:
+		ref = t
+	case *types.Slice:
+		ref = T(app("s_arr", t), SInt)
+	case *types.Interface:
+		pv := vc.declFun("ptrval", []string{SIface}, SInt)
+		ref = T(app(pv, t), SInt)
+	case *types.Struct:
+		si := vc.structOf(typ)
+		for i, f := range si.Fields {
+			switch f.Type.Underlying().(type) {
+			case *types.Pointer, *types.Map, *types.Chan, *types.Slice, *types.Interface:
+				vc.publish(vc.structField(si, t, i), f.Type)
+			}
+		}
+		_ = u
+		return
+	default:
+		return
+	}
+	e := vc.named("esc", vc.cur.get("escaped")) // (named: the term is used twice below)
+	b := vc.baseOf(ref)
+	vc.cur = vc.cur.set("escaped", Store(e, b, Ite(Eq(ref, IntLit(0)), Select(e, b, SBool), tTrue)))
 }
 
 // ---------- interfaces ----------
@@ -968,9 +1019,17 @@ func (vc *FuncVC) boxFuncs(t types.Type) (box, unbox string) {
 	if !vc.boxDecl[key] {
 		vc.boxDecl[key] = true
 		tid := vc.typeID(t)
-		if _, isPtr := t.Underlying().(*types.Pointer); isPtr {
-			pv := vc.declFun("ptrval", []string{SIface}, SInt)
+		pv := vc.declFun("ptrval", []string{SIface}, SInt)
+		switch t.Underlying().(type) {
+		case *types.Pointer, *types.Map, *types.Chan:
 			vc.preDecls = append(vc.preDecls, fmt.Sprintf("(assert (forall ((x Int)) (! (= (%s (%s x)) x) :pattern ((%s x)))))", pv, box, box))
+		case *types.Slice:
+			vc.preDecls = append(vc.preDecls, fmt.Sprintf("(assert (forall ((x Slice)) (! (= (%s (%s x)) (s_arr x)) :pattern ((%s x)))))", pv, box, box))
+		case *types.Signature, *types.Struct, *types.Interface:
+			// closures and structs may carry references: nothing is stated
+		default:
+			// a boxed value without references publishes nothing
+			vc.preDecls = append(vc.preDecls, fmt.Sprintf("(assert (forall ((x %s)) (! (= (%s (%s x)) 0) :pattern ((%s x)))))", sort, pv, box, box))
 		}
 		vc.preDecls = append(vc.preDecls,
 			fmt.Sprintf("(assert (forall ((x %s)) (! (and (= (%s (%s x)) x) (= (tagOf (%s x)) %s) (not (= (%s x) nil_iface))) :pattern ((%s x)))))", sort, unbox, box, box, tid.S, box, box),
@@ -1147,6 +1206,8 @@ func (vc *FuncVC) execMapUpdate(x *ssa.MapUpdate) {
 	vv := vc.cur.get(vcN)
 	vc.cur = vc.cur.set(dc, Store(d, m, Store(Select(d, m, arraySort(ks, SBool)), k, tTrue)))
 	vc.cur = vc.cur.set(vcN, Store(vv, m, Store(Select(vv, m, arraySort(ks, vs)), k, v)))
+	vc.publish(k, mt.Key())
+	vc.publish(v, mt.Elem())
 }
 
 // ---------- range ----------
@@ -1240,8 +1301,13 @@ func (vc *FuncVC) execReturn(x *ssa.Return) {
 		env.results = append(env.results, vc.val(r))
 	}
 	for n, e := range vc.C.Ensures {
+		vc.goalSkolemised = false
 		f := vc.evalGoal(env, e)
-		vc.oblige("post", "post."+clauseName(e, n), vc.g(), f, e.Src)
+		h := f
+		if vc.goalSkolemised {
+			h = vc.evalBool(env, e)
+		}
+		vc.obligeWith("post", "post."+clauseName(e, n), vc.g(), f, h, e.Src)
 	}
 	vc.checkFrame()
 }
@@ -1289,6 +1355,31 @@ func (vc *FuncVC) escapePoints(a ssa.Value) []ssa.Instruction {
 			case *ssa.Phi:
 				// merging the address with others does not publish it: follow the merged value
 				walk(u)
+			case *ssa.Slice:
+				// a sub-slice shares the array: follow it
+				walk(u)
+			case *ssa.Range, *ssa.Lookup, *ssa.MapUpdate:
+				// iterating, reading or updating a map/slice does not publish the container
+				// (a stored *value* that is itself the walked reference is handled by Store/MapUpdate below)
+				if mu, ok := r.(*ssa.MapUpdate); ok && (mu.Key == v || mu.Value == v) {
+					out = append(out, r)
+				}
+			case *ssa.Call:
+				if b, isB := u.Call.Value.(*ssa.Builtin); isB {
+					switch b.Name() {
+					case "len", "cap", "delete":
+					case "append":
+						if len(u.Call.Args) > 0 && u.Call.Args[0] == v {
+							walk(u) // the result may share the array
+						}
+						// appending the elements of v copies them: v itself is not published
+					case "copy":
+					default:
+						out = append(out, r)
+					}
+				} else {
+					out = append(out, r)
+				}
 			case *ssa.BinOp:
 				// comparisons of the address do not publish it
 				if u.Op != token.EQL && u.Op != token.NEQ {
@@ -1351,6 +1442,14 @@ func (vc *FuncVC) unescapedAllocs(at ssa.Instruction) []ssa.Value {
 				a = al
 			} else if v, ok := in.(ssa.Value); ok && vc.freshVals[v] {
 				a = v
+			} else if ms, ok := in.(*ssa.MakeSlice); ok {
+				a = ms
+			} else if mm, ok := in.(*ssa.MakeMap); ok {
+				a = mm
+			} else if c, ok := in.(*ssa.Call); ok {
+				if b, isB := c.Call.Value.(*ssa.Builtin); isB && b.Name() == "append" {
+					a = c
+				}
 			}
 			if a == nil {
 				continue
